@@ -64,3 +64,8 @@ claim("C17", "model_checking",
       "python json/yaml; float repr round trip",
       "explicit-state exploration of operation histories (depth 3) over real loader calls with a deep-snapshot and isolation oracle",
       "DESIGN.md section 4 C17")
+claim("C19", "fault_enumeration",
+      "Exhaustive single-fault injection: every valid base description (networks, circuits, component constructor calls, network-loader and circuit-loader dictionaries, a declarative schematic) is first accepted and checked to be stored unaltered, then given exactly one fault of each class of the statement at every position (duplicate id at every pair, foreign reference node, second ground at every insertion point, each sign-checked parameter negative with three magnitudes, unknown type, unknown waveform in lookup and in every analysis, each required field missing) which must raise, plus boundary twins (exactly 0) which must be accepted, plus unknown element/node queries against all six solution kinds.",
+      "exception types recorded, not constrained; sign rules anchored at constructors/loaders, reference rule at Network, ground/duplicate rules at Circuit",
+      "exhaustive fault enumeration (fault class x position x value) on the real constructors, loaders and solutions",
+      "DESIGN.md section 4 C19")
